@@ -113,6 +113,20 @@ def make_run(W, shape, known_active=None):
             info["resolve"] = list(out2)
             if out2 != out:
                 sane = False
+        if kwc is None and nargs == 1:
+            # an argument whose __class__ reports a harness class although its type is a plain class (a proxy, a mock with a spec): whatever
+            # the function does with it, resolve() names the method the call runs
+            Liar = type("Liar", (), {"__class__": property(lambda self: W.K[1 % n] if n else object)})
+            liar = Liar()
+            o_call, _ = outcome_of(lambda: ov.dispatch(liar), LOG)
+
+            def via_resolve_liar():
+                h = ov.resolve(liar)
+                return h(liar)
+            o_res, _ = outcome_of(via_resolve_liar, LOG)
+            info["proxy_argument"] = [list(o_call), list(o_res)]
+            if o_call != o_res:
+                sane = False
         app = [rule.app(m) for m in range(M)]
         anyapp = z3.Or(app)
         wins = [rule.wins(m) for m in range(M)]
